@@ -374,6 +374,40 @@ class C19(Prop):
             ops.reverse()
         return ops, bad
 
+    def one_case_dg(self, rng):
+        """datagrams only (also used by C18): CONNECT ids in every varint form of the quarter id, datagrams sent for the
+        session, received for it / for other ids / malformed, the close that follows a malformed one"""
+        cfg = "g0,wt=1,ec=1,dg=1,seed=%d" % rng.randrange(0, 1000)
+        connect = rng.choice([0, 4, 8, 60, 64, 252, 256, 16380, 16384, 65532, 65536, 2**30 - 4, 2**30, 2**32, 2**32 - 4,
+                              2**40 + 4, 2**61, 2**62 - 4])
+        ops = ["o2", "s2:" + PEER_SETTINGS, "o%d" % connect, "s%d:%s" % (connect, CONNECT), "conn.WT", "conn.sid"]
+        for _ in range(rng.randrange(1, 7)):
+            if rng.random() < 0.04:
+                # the peer closes the connection / it times out: both datagram calls report the transport's error
+                tail = [rng.choice(["C0", "C7", "C256", "T"])]
+                for _ in range(rng.randrange(1, 4)):
+                    tail.append(rng.choice(["conn.dgs:0a", "conn.dgr", "conn.dgr", "d:00ff"]))
+                if rng.random() < 0.3:
+                    tail.append(rng.choice(["conn.ab", "conn.au"]))
+                if rng.random() < 0.3:
+                    tail = ["conn.dgr"] + tail      # the reader is waiting when it happens
+                ops += tail
+                break
+            d, bad = self.datagram_ops(rng, connect)
+            if rng.random() < 0.05 and d[0].startswith("conn.dgs"):
+                d = ["conn.dgs:" + hx([rng.getrandbits(8) for _ in range(rng.choice([100, 1200, 1500]))])]
+            ops += d
+            if bad:
+                t = rng.random()
+                if t < 0.3:
+                    ops.append("conn.ab")
+                elif t < 0.6:
+                    ops.append("conn.au")
+                elif t < 0.7:
+                    ops += ["conn.dgs:0102", "conn.ab"]
+                break
+        return "wt server %s %s" % (cfg, " ".join(ops))
+
     def one_case_io(self, rng, dg_focus=False):
         wt = rng.random() < 0.92
         wc = rng.choice([0, 1, 2, 3, 5]) if rng.random() < 0.3 else None
@@ -469,8 +503,9 @@ class C19(Prop):
     def cases(self, tier, rng):
         big = tier == "thorough"
         L = [self.one_case_basic(rng) for _ in range(6000 if big else 1200)]
-        L += [self.one_case_io(rng) for _ in range(20000 if big else 4000)]
-        L += [self.one_case_io(rng, dg_focus=True) for _ in range(3000 if big else 600)]
+        L += [self.one_case_io(rng) for _ in range(200000 if big else 30000)]
+        L += [self.one_case_io(rng, dg_focus=True) for _ in range(20000 if big else 4000)]
+        L += [self.one_case_dg(rng) for _ in range(10000 if big else 2000)]
         return L
 
     def shrink_candidates(self, line):
